@@ -1710,7 +1710,7 @@ class Cat(Funsor, metaclass=CatMeta):
             pos = 0
             for part in self.parts:
                 psize = part.inputs[self.part_name].size
-                if step > 1:
+                if step > 1 and pos > start:
                     pstart = ((pos - start) // step) * step - (pos - start)
                     pstart = pstart + step if pstart < 0 else pstart
                 else:
